@@ -23,6 +23,8 @@ const (
 //	"aborted"   the request context ended before an answer was served
 func kindOf(a Attempt, e Event) string {
 	switch {
+	case a.Timeout:
+		return "retry" // cut by the client's own timeout: a transport error
 	case a.Aborted || a.Method == "":
 		return "aborted"
 	case a.Method != "POST":
@@ -33,6 +35,11 @@ func kindOf(a Attempt, e Event) string {
 		return "stop"
 	}
 	return "retry"
+}
+
+// plain408: the attempt was really answered 408 (and not cut by the client's timeout).
+func plain408(a Attempt, e Event, kind string) bool {
+	return kind == "retry" && !a.Timeout && e.Kind == "status" && e.Status == 408
 }
 
 func evLabel(e Event) string {
@@ -97,7 +104,14 @@ func judgeCaller(c Case, i int, out Outcome, single bool, v *harness.Verdict) {
 		e := cc.Script[a.Ev]
 		kinds[k] = kindOf(a, e)
 		if kinds[k] != "aborted" {
+			if a.Timeout {
+				v.Class("answer:client-timeout")
+				continue
+			}
 			v.Class("answer:" + evLabel(e))
+			if e.Kind == "neterr" && e.NetErr != 0 {
+				v.Class("answer:neterr-wrapping-context-error")
+			}
 			if e.Kind == "status" && (e.Status == 429 || e.Status == 503) && kinds[k] == "retry" {
 				f := e.RA.Form
 				if f == "" {
@@ -147,7 +161,7 @@ func judgeCaller(c Case, i int, out Outcome, single bool, v *harness.Verdict) {
 			continue
 		}
 		gap := next.Start - a.End
-		is408 := kinds[k] == "retry" && e.Kind == "status" && e.Status == 408
+		is408 := plain408(a, e, kinds[k])
 		if kinds[k] == "retry" && a.Demand {
 			v.Class("retry-after-honoured:" + e.RA.Form)
 			if next.Start < a.NotBefore {
@@ -180,7 +194,7 @@ func judgeCaller(c Case, i int, out Outcome, single bool, v *harness.Verdict) {
 				for _, x := range out.Attempts[j] {
 					ex := c.Callers[j].Script[x.Ev]
 					kx := kindOf(x, ex)
-					if x.End > a.End || (kx != "retry" && kx != "converted") || (kx == "retry" && ex.Kind == "status" && ex.Status == 408) {
+					if x.End > a.End || (kx != "retry" && kx != "converted") || plain408(x, ex, kx) {
 						continue
 					}
 					u := x.End + capWait
@@ -265,6 +279,8 @@ func judgeCaller(c Case, i int, out Outcome, single bool, v *harness.Verdict) {
 	case "canceled", "deadline":
 		want := map[string]string{"cancel": "canceled", "deadline": "deadline"}[cc.Ctx]
 		switch {
+		case lastKind == "retry" && R == last.End && (!hasEnd || R < tEnd):
+			v.Failf("transport-error-returned-as-context-end", "%s: attempt %d failed in transport at %v (%s, timeout=%v) while the caller's context was alive; instead of a retry the call returned %q", who, n-1, last.End, evLabel(lastEv), last.Timeout, rec.ErrText)
 		case !hasEnd:
 			v.Failf("spurious-context-error", "%s: no context end was planned, yet the call returned %s", who, rec.ErrText)
 		case rec.ErrKind != want:
